@@ -1145,6 +1145,13 @@ func execC05MInner(ops []Op) []string {
 		}
 		return out
 	}
+	if len(ops) > 0 && ops[0].Args[0] == "cancel" {
+		var out []string
+		for _, op := range ops {
+			out = append(out, execCancel(op)...)
+		}
+		return out
+	}
 	return execMech(ops)
 }
 
@@ -1313,13 +1320,39 @@ func runC05M(run *Run) {
 			}
 		}
 	}
+	// (C) cancellation family: done contexts, replaced contexts (harness/c05_cancel.go)
+	// (its many one-line cases are spread evenly among the others: the driver shards are contiguous runs of cases)
+	ccs, ccStats := ccCases(run.Tier == "thorough")
+	{
+		others := cases
+		cases, idx = nil, 0
+		no, nc := len(others), len(ccs)
+		io, ic := 0, 0
+		for io < no || ic < nc {
+			if ic < nc && (io >= no || ic*no <= io*nc) {
+				addCase(ccs[ic], "cancellation family "+ccShapes[c05atoi(ccs[ic][0].Args[1])].Name)
+				ic++
+			} else {
+				addCase(others[io].Ops, others[io].Note)
+				io++
+			}
+		}
+	}
+	run.Extra["cancellation_family_cases"] = len(ccs)
+	for k, v := range ccStats {
+		run.Extra["cancellation_family_"+k] = v
+	}
 	run.Rule = "Impl = Model on the Go API: generated operation sequences (push/settop/call/ret/Lua frames with captured locals/" +
 		"nested PCall with and without handler/RaiseError/Error(v,level)/Go panic/handler return/failing handler/registry limit) executed under the real " +
 		"LState.PCall, VerifSnapshot compared with GLua/Model/PCall.lean after every operation; Spec: a failed protected call restores Sp, currentFrame, " +
 		"top = base, Panic, and leaves exactly the caller's open upvalues. Fault enumeration (bounded-exhaustive TEST over the corpus): " +
 		fmt.Sprintf("%d Lua programs x every VM instruction boundary (one-shot context; sampled to %d per program when longer) x every host-function call x %d fault kinds; ", nProg, maxK, nHostKinds) +
 		"observed: no Go panic leaves DoString/PCall, snapshots before/after every pcall/xpcall/resume, emit-prefix, payload delivered once and unchanged (position prefix for strings), " +
-		"handler once/before unwinding/result returned, continuation equal to the fault-free run with the call replaced by (false,msg), probe chunk, final bookkeeping"
+		"handler once/before unwinding/result returned, continuation equal to the fault-free run with the call replaced by (false,msg), probe chunk, final bookkeeping. " +
+		fmt.Sprintf("Cancellation family (bounded-exhaustive TEST, %d runs): %d program shapes (protected-call nesting around the point where a done context is noticed: none/pcall/xpcall/nested/retry loop/handler/coroutines/metamethod/iterator/sort comparator/gsub callback/re-entrant DoString, CallByParam, Call) ", len(ccs), len(ccShapes)) +
+		"x the marked point at which a host function replaces the context of the running thread (none or each) x the way (SetContext, RemoveContext+SetContext, child of the old context, two in a row) " +
+		"x what is cancelled and when (newest context inside its k-th VM poll for EVERY instruction boundary, the context attached before the run inside every poll after the replacement, new context already cancelled when attached, by a host function at every marked point, nothing); " +
+		"real cancelCtx behind a poll-counting wrapper, no timers; oracle = harness-side ground truth of which thread's attached context is done: no Lua-made host call on a done thread, every protected call / resume that ends under a done context failed with `<chunk>:<line>: context canceled` (handler exactly once), DoString returns that error, a detached context has no effect (run identical to the fault-free run), replacement alone is invisible, prefix, C05M pc, final bookkeeping, probe"
 	run.Assume = []string{
 		"Go recover() catches every panic value raised below the deferred call (Go runtime, trusted)",
 		"call frames pushed by callR/OP_CALL have LocalBase = Base+1 and ReturnBase = Base (checked by the tie on every operation)",
@@ -1330,6 +1363,11 @@ func runC05M(run *Run) {
 	run.Extra["injections"] = nInj
 	run.Extra["op_sequences"] = nSeq
 	runCases(run, cases, execC05M, classifyTagged)
+	run.Extra["cancellation_family_observed"] = map[string]int64{
+		"runs_in_which_a_context_was_cancelled": atomic.LoadInt64(&ccStat.fired), "chunk_must_fail_cancelled": atomic.LoadInt64(&ccStat.chunkCancelled),
+		"cancelled_but_must_equal_fault_free_run": atomic.LoadInt64(&ccStat.chunkAsFaultFree), "only_a_coroutine_affected": atomic.LoadInt64(&ccStat.chunkAny),
+		"protected_calls_ended_under_a_done_context": atomic.LoadInt64(&ccStat.protectedUnderDone), "resumes_ended_under_a_done_context": atomic.LoadInt64(&ccStat.resumeUnderDone),
+		"wrapped_coroutine_calls_raised_under_a_done_context": atomic.LoadInt64(&ccStat.wrapRaised), "pc_requests": atomic.LoadInt64(&ccStat.pcLines)}
 	if os.Getenv("C05M_DEBUG") != "" {
 		seen := map[string]int{}
 		for _, f := range run.Failures {
